@@ -321,6 +321,10 @@ func scenarios(thorough bool) []*scenario {
 			&scenario{Name: "ttl-refresh-vs-taker" + sfx, Capacity: cap, Fillers: fill, TTL: ttl, Clock: true,
 				Owners: [][]lop{{L("lock", "a"), L("islockedttl", "a"), L("islocked", "a")}, {L("lock", "a"), L("islocked", "a")}}},
 		)
+		// re-entrant request that fails: an owner already holding "a" asks for {a,b} while "b" is taken; the failed
+		// request must not cost it the lock on "a" it was granted earlier (a third owner then tries "a")
+		out = append(out, &scenario{Name: "held-key-in-failed-multi-lock" + sfx, Capacity: cap, Fillers: fill, TTL: ttl, Bound: 1,
+			Owners: [][]lop{{L("lock", "a"), L("lock", "a", "b"), L("islocked", "a")}, {L("lock", "b")}, {L("lock", "a"), L("islocked", "a")}}})
 		// a third owner locks an unrelated key that lives in the same shard as "a" (capacity pressure)
 		col := collidingName("a")
 		out = append(out, &scenario{Name: "unrelated-lock-in-same-shard" + sfx, Capacity: cap, Fillers: fill, TTL: ttl, Bound: 1,
@@ -340,6 +344,8 @@ func scenarios(thorough bool) []*scenario {
 			Owners: [][]lop{{L("lock", "a"), L("islocked", "a")}, {L("unlock-foreign", "a"), L("lock", "a")}}},
 		&scenario{Backend: "redis", Name: "redis-ttl-refresh-vs-taker", TTL: ttl, Clock: true,
 			Owners: [][]lop{{L("lock", "a"), L("islockedttl", "a"), L("islocked", "a")}, {L("lock", "a"), L("islocked", "a")}}},
+		&scenario{Backend: "redis", Name: "redis-held-key-in-failed-multi-lock", TTL: ttl, Bound: 1,
+			Owners: [][]lop{{L("lock", "a"), L("lock", "a", "b"), L("islocked", "a")}, {L("lock", "b")}, {L("lock", "a"), L("islocked", "a")}}},
 		&scenario{Backend: "redis", Name: "redis-late-unlock-after-expiry", TTL: ttl, Clock: true,
 			Owners: [][]lop{{L("lock", "a"), L("unlock", "a")}, {L("lock", "a"), L("islocked", "a")}}},
 	)
